@@ -71,9 +71,13 @@ theorem ainv_init (store : KMap Nat) : AInv (ginit store) := by
     intro k
     show (Server.connect {} 1).waiting[k]? = none
     simp [Server.connect]
-  · refine ⟨hpo, _, hp1, .inl ⟨rfl, rfl⟩, ?_⟩
-    intro k r hr
-    simp at hr
+  · refine ⟨hpo, ⟨_, hp1, .inl ⟨rfl, rfl⟩, ?_⟩, ?_⟩
+    · intro k r hr
+      simp at hr
+    · intro ps0 h0 x
+      rw [hp1] at h0; cases h0
+      simp
+      exact eq_comm
   · show sendFullInterval ≤ 0 + sendFullInterval
     omega
   · intro q d h; cases h
